@@ -776,3 +776,41 @@ pub fn key_local_cases(prop: &'static str, coll: &'static str, w: [u32; 8], expo
         })
         .boxed()
 }
+
+/// monotone fill (1-3 runs), a delete-heavy phase that leaves the tree partly drained, `clear`, then
+/// a suffix of inserts, runs and observations (C12: the cleared collection against a fresh twin)
+pub fn ord_fill_drain_clear_cases(prop: &'static str, family: &'static str, coll: &'static str, vals: Vec<&'static str>) -> BoxedStrategy<Case> {
+    (pick(&[64i64, 200]), caps(), pick(&vals))
+        .prop_flat_map(move |(u, cap, val)| {
+            let lens: Vec<i64> = vec![7, 8, 15, 16, 24, 31, 32, 40, 63, 64, 100, 127];
+            let run = (0..=u - 1, pick(&lens), 0..=1i64).prop_map(|(s, l, d)| RawOp::new(O_RUN, &[s, l, d])).boxed();
+            let steps = if family == "set" { 3 } else { 0 };
+            let drain = vec![
+                spec(30, O_DEL, &[0..=u - 1, 1..=3]),
+                spec(10, O_HDEL, &[0..=u + 1]),
+                spec(4, O_INS, &[0..=u - 1]),
+                spec(3, O_GET, &[0..=u + 1]),
+            ];
+            let suffix = vec![
+                spec(30, O_INS, &[0..=u - 1]),
+                spec(6, O_RUN, &[0..=u - 1, 1..=40, 0..=1]),
+                spec(10, O_DEL, &[0..=u - 1, 0..=3]),
+                spec(12, O_GET, &[0..=u + 1]),
+                spec(6, O_HREAD, &[0..=u + 1, 0..=2]),
+                spec(3, O_HDEL, &[0..=u + 1]),
+                spec(steps, O_STEP, &[0..=u - 1, 0..=1]),
+                spec(steps / 3, O_WALK, &[]),
+                spec(2, O_ISEMPTY, &[]),
+            ];
+            (prop::collection::vec(run, 1..=3), ops_strategy(&drain, 3..=70), ops_strategy(&suffix, 3..=40)).prop_map(move |(mut ops, d, sfx)| {
+                ops.extend(d);
+                ops.push(RawOp::new(O_CLEAR, &[]));
+                ops.extend(sfx);
+                let mut c = Case::new(prop, family);
+                c.set("coll", coll).set("val", val).set("cap", cap).set("U", u);
+                c.ops = ops;
+                c
+            })
+        })
+        .boxed()
+}
